@@ -141,6 +141,7 @@ mut("C08-param-list-no-trip", "C08", BASE, "            raise InputError(\"Expec
 mut("C09-pairs-by-position", "C09", BASE, "                            index_temp = f(parameters[i][0])", "                            index_temp = f(str(self._paramList[i]))")
 mut("C09-partial-resets", "C09", BASE, "                if hasattr(self, \"_parameters\"):\n                    param_out = self._parameters", "                if False:\n                    param_out = self._parameters")
 mut("C09-long-list-accepted", "C09", BASE, "                if len(parameters) == self.num_param:\n                    if isinstance(parameters, np.ndarray):", "                if len(parameters) >= self.num_param:\n                    parameters = parameters[:self.num_param]\n                    if isinstance(parameters, np.ndarray):")
+rev("C09-revert-D18-reserved-t", "C09", "38420a1")
 mut("C10-origin-loses-one", "C10", DET, "                    between_state_ode[origin_index] -= rate_of_change", "                    between_state_ode[origin_index] -= rate")
 mut("C10-stoch-origin-loses-one", "C10", BASE, "                    self._vMat[origin_index, event_index] -= magnitude\n                    self._vMat[destination_index, event_index] += magnitude", "                    self._vMat[origin_index, event_index] -= 1\n                    self._vMat[destination_index, event_index] += magnitude")
 rev("C11-revert-D12-range-limits", "C11", "813b45c")
